@@ -22,7 +22,8 @@ META = dict(
     bounds=dict(
         quick="unit: real Percentage.calculate_fees + OrderManager._round_fees + Order.add_fill on a real LimitOrder, "
               "k <= 3 fills with symbolic quote amounts (on the quote grid, buy and sell), symbolic minimum fee, "
-              "percentage from {0, 0.1, 0.25, 1, 99.9999} (quick) at quote precisions 2 and 0 (k <= 3) and 12 (k <= 2); "
+              "percentage from {0, 0.1, 0.25, 1, 99.9999} (quick) at quote precisions 2 and 0 (k <= 3) and 12 (k <= 2), and at pair precision 2 with the quote symbol's own precision "
+              "set to 8 / 0 / 4 (k <= 2); "
               "integration: limit / "
               "stop-limit orders partially filled over 2 bars under VolumeShareImpact, every fee scheme incl. NoFee",
         thorough="k <= 4 fills, percentage symbolic with 4 decimals in [0, 100), quote precision 8"),
@@ -33,7 +34,7 @@ META = dict(
 )
 
 
-def unit(ctx, k=3, qp=2, side="buy", pct_mode="set"):
+def unit(ctx, k=3, qp=2, side="buy", pct_mode="set", symbol_precisions=False):
     """The fee pipeline in isolation: k partial fills of one order."""
     patch_minmax(ctx)
     if pct_mode == "set":
@@ -45,6 +46,13 @@ def unit(ctx, k=3, qp=2, side="buy", pct_mode="set"):
     op = BUY if side == "buy" else SELL
     o = orders.LimitOrder("1", op, PAIR, Decimal(10 ** 9), Decimal(1), orders.OrderState.OPEN)
     cfg = config.Config(None, PairInfo(8, qp))
+    if symbol_precisions:
+        # the quote SYMBOL may have its own precision (set_symbol_precision), different from the pair's quote precision:
+        # fees are rounded up to the pair's quote precision whatever it is
+        sp = [8, 0, qp + 2][ctx.choice("quote_symbol_precision", 3)]
+        cfg.set_symbol_info("USD", config.SymbolInfo(precision=sp))
+        cfg.set_symbol_info("BTC", config.SymbolInfo(precision=8))
+        cfg.set_pair_info(PAIR, PairInfo(8, qp))        # (pair-specific info: it takes precedence over the symbols')
     om = order_mgr.OrderManager.__new__(order_mgr.OrderManager)
     om._ctx = type("C", (), {"config": cfg})()
     total_q = ZERO
@@ -118,6 +126,12 @@ def jobs(tier):
                 js.append(Job("unit k=%d qp=%d %s" % (kk, qp, side), "unit", dict(k=kk, qp=qp, side=side),
                               validate_every=10, sample_every=30, split=64 if kk >= 3 else 0, max_paths=300000,
                               prove_timeout=30000))
+    # the quote symbol's own precision differs from the pair's quote precision
+    for side in ("buy", "sell"):
+        for kk in (1, 2):
+            js.append(Job("unit k=%d qp=2 %s, quote symbol precision from {8, 0, 4}" % (kk, side), "unit",
+                          dict(k=kk, qp=2, side=side, symbol_precisions=True), validate_every=10, sample_every=30,
+                          max_paths=300000, prove_timeout=30000))
     # a quote precision finer than 8 decimals (nothing in the fee pipeline may assume 8)
     for side in ("buy", "sell"):
         for kk in (1, 2):
